@@ -28,12 +28,14 @@ GInit == Init /\ log = <<[op |-> <<"init", budget>>]>>
 Canon == /\ lastop'[1] # "view"      \* contents are compared after every step anyway
          /\ regs'[2].alive => (regs[1].alive \/ regs[2].alive)
          /\ (lastop'[1] = "ctor" /\ lastop'[2] = 2) => (lastop'[3] = "from_slice_into_readonly_locked" /\ lastop'[4] = "Resizable" /\ lastop'[5] = 4097)
+\* composite constructors matter where locks can be refused; elsewhere one representative keeps the graph small
+CompFocus == (lastop'[1] = "composite") => ((Focus = "refuse" /\ nops <= 1 /\ (nops = 1 => lastop[1] # "composite")) \/ (Focus = "all" /\ lastop'[3] = "KeyPair::gen_locked_keypair" /\ nops = 0))
 WipeFocus == Focus = "wipe" =>
   /\ lastop'[1] \in {"ctor", "resize", "clone", "drop", "fill", "munlock", "heap_mlock"}
   /\ lastop'[1] = "ctor" => (lastop'[3] \in {"heap", "from_slice_into_locked"} /\ lastop'[5] \in {16, 4097})
   /\ lastop'[1] = "resize" => lastop'[3] \in {1, 64, 4096, 8193}
 RefuseFocus == Focus = "refuse" => (lastop'[1] = "ctor" => lastop'[5] \in {16, 4097})
-GNext == Next /\ Canon /\ WipeFocus /\ RefuseFocus /\ log' = Append(log, [op |-> lastop', res |-> res', obs |-> Obs'])
+GNext == Next /\ Canon /\ WipeFocus /\ RefuseFocus /\ CompFocus /\ log' = Append(log, [op |-> lastop', res |-> res', obs |-> Obs'])
 GSpec == GInit /\ [][GNext]_gvars
 
 Emit == (nops = MaxOps) => PrintT(ToJson(log))
